@@ -2,6 +2,8 @@
 # runs every claimed check (quick) on the current tree; prints one line per property
 for id in $(python3 -c "import json;print(' '.join(c['property_id'] for c in json.load(open('/verif/MANIFEST.json'))['checks']))"); do
   out=$(/verif/check $id quick 2>&1); code=$?
-  echo "[$code] $(echo "$out" | grep "obligations discharged" | tail -1)"
+  u=$(echo "$out" | grep -c "^UNDECIDED")
+  echo "[$code] $(echo "$out" | grep "obligations discharged" | tail -1) undecided=$u"
   [ $code -ne 0 ] && echo "$out" | grep -v "obligations discharged" | tail -5
+  [ "$u" -ne 0 ] && echo "$out" | grep "^UNDECIDED" | head -3 | cut -c1-300
 done
